@@ -73,7 +73,10 @@ def check(ctx: Ctx) -> None:
               construct="rounded increments are accumulated", message="rounding each delta lets the error grow along the track", file=fi.file, node=aug)
     rounded = [s for s in msg_loop.body if isinstance(s, ast.Assign) and isinstance(s.value, ast.Call) and isinstance(s.value.func, ast.Name)
                and s.value.func.id in ("round", "int") and acc in src(s.value)]
-    ctx.floor("rounded position", len(rounded), 1)
+    if not rounded:
+        ctx.violation("ACCUM", f"{FN}: rounded position", function=FN, construct="event position is not round(running position)",
+                      message="no `x = round(running position)` at the top level of the message loop", file=fi.file, node=msg_loop)
+        return
     r = rounded[0]
     rv = r.targets[0].id
     ctx.check(r.value.func.id == "round" and len(r.value.args) == 1 and isinstance(r.value.args[0], ast.Name) and r.value.args[0].id == acc and not r.value.keywords,
@@ -175,7 +178,7 @@ def check(ctx: Ctx) -> None:
     rfi, sp, rt = midi.reader_table(p)
     ctx.analysed(rfi)
     on = rt.get("note_on", [])
-    kinds = sorted((r[0], " and ".join(src(c) for c in r[2])) for r in on)
+    kinds = sorted((str(r[0]), " and ".join(src(c) for c in r[2])) for r in on)
     pos = [r for r in on if r[0] == "NOTE_ON" and any(isinstance(c, ast.Compare) and isinstance(c.ops[0], ast.Gt) and "velocity" in src(c.left)
                                                      and isinstance(c.comparators[0], ast.Constant) and c.comparators[0].value == 0 for c in r[2])]
     zero = [r for r in on if r[0] == "NOTE_OFF" and any(isinstance(c, ast.Compare) and isinstance(c.ops[0], (ast.Eq, ast.LtE)) and "velocity" in src(c.left)
